@@ -173,6 +173,33 @@ fn main() {
             let o = std::panic::catch_unwind(move || decode::outcome(&i2)).unwrap_or_else(|_| "PANIC".to_string());
             println!("{} => {}", i.to_json(), o);
         }
+        "gen" => {
+            // prints the glue the proc macros of the current tree emit for a schema: asn_to_rust!(schema) gives items carrying
+            // #[asn(...)] attributes; for each of them the attribute macro (asn1rs_model::proc_macro::parse) emits the
+            // impl Constraint / Readable / Writable blocks.  Output: the items without attributes, then the impls.
+            use quote::ToTokens;
+            let text = std::fs::read_to_string(&args[2]).expect("schema file");
+            let code = asn1rs::model::proc_macro::asn_to_rust(&text);
+            let file = syn::parse_file(&code).expect("generated code parses");
+            for item in file.items {
+                let attrs: Vec<syn::Attribute> = match &item {
+                    syn::Item::Struct(s) => s.attrs.clone(),
+                    syn::Item::Enum(e) => e.attrs.clone(),
+                    _ => vec![],
+                };
+                let Some(asn) = attrs.iter().find(|a| a.path().is_ident("asn")) else { continue };
+                let args_ts: proc_macro2::TokenStream = match &asn.meta { syn::Meta::List(l) => l.tokens.clone(), _ => proc_macro2::TokenStream::new() };
+                let mut stripped = item.clone();
+                match &mut stripped {
+                    syn::Item::Struct(s) => s.attrs.retain(|a| !a.path().is_ident("asn")),
+                    syn::Item::Enum(e) => e.attrs.retain(|a| !a.path().is_ident("asn")),
+                    _ => {}
+                }
+                let out = asn1rs::model::proc_macro::parse(args_ts, stripped.to_token_stream());
+                println!("// ---- {}", match &item { syn::Item::Struct(s) => s.ident.to_string(), syn::Item::Enum(e) => e.ident.to_string(), _ => String::new() });
+                println!("{}", out);
+            }
+        }
         "replay" => {
             let i = Input::from_json(&args[2]).expect("bad input json");
             match run_case(&i) {
